@@ -3,9 +3,11 @@ package c01
 
 import (
 	"bytes"
+	"encoding/json"
 	"fmt"
 	"sort"
 	"strings"
+	"sync"
 	"testing"
 	"time"
 
@@ -44,6 +46,7 @@ func runHistory(t *rapid.T, real bool) {
 	shapes := map[string]bool{}
 	w.OnOp = func(ev *world.Event) { monitor(t, w, ev, shapes) }
 	t.Repeat(kit.Weighted(w.Actions(), weights, nil))
+	epilogue(t, w)
 	final(t, w)
 	var ss []string
 	for s := range shapes {
@@ -194,4 +197,70 @@ func final(t *rapid.T, w *world.World) {
 	if msg := w.Store.CheckImmutable(); msg != "" {
 		fail(t, w, "store rows changed: %s", msg)
 	}
+}
+
+// epilogue: a short concurrent round-trip burst on one factory (4 goroutines, each with
+// its own sessions) touches the "schedules" part of the quantifier; systematic schedule
+// search is the job of C08 / C16.
+func epilogue(t *rapid.T, w *world.World) {
+	p := w.Procs[rapid.IntRange(0, len(w.Procs)-1).Draw(t, "epilogueProc")]
+	if p.Closed {
+		return
+	}
+	var mu sync.Mutex
+	var viol string
+	var recs []*world.Rec
+	var wg sync.WaitGroup
+	for g := 0; g < 4; g++ {
+		wg.Add(1)
+		go func(g int) {
+			defer wg.Done()
+			defer func() {
+				if x := recover(); x != nil {
+					mu.Lock()
+					viol = fmt.Sprintf("concurrent epilogue: goroutine %d panicked: %v", g, x)
+					mu.Unlock()
+				}
+			}()
+			for i := 0; i < 4; i++ {
+				part := w.Parts[(g+i)%len(w.Parts)]
+				s, err := p.Factory.GetSession(part)
+				if err != nil {
+					mu.Lock()
+					viol = fmt.Sprintf("concurrent epilogue: GetSession(%q) failed: %v", part, err)
+					mu.Unlock()
+					return
+				}
+				payload := []byte(fmt.Sprintf("epilogue-%d-%d", g, i))
+				drr, err := s.Encrypt(ctxBg, payload)
+				var out []byte
+				if err == nil {
+					out, err = s.Decrypt(ctxBg, world.CloneDRR(*drr))
+				}
+				s.Close()
+				mu.Lock()
+				switch {
+				case err != nil:
+					viol = fmt.Sprintf("concurrent epilogue: round trip on %q failed: %v", part, err)
+				case !bytes.Equal(out, payload):
+					viol = fmt.Sprintf("concurrent epilogue: round trip on %q returned other bytes", part)
+				default:
+					r := &world.Rec{ID: -1, Partition: part, Payload: payload, DRR: world.CloneDRR(*drr), Proc: p.Name}
+					r.JSON, _ = json.Marshal(drr)
+					r.IKID, r.IKCreated = drr.Key.ParentKeyMeta.ID, drr.Key.ParentKeyMeta.Created
+					recs = append(recs, r)
+				}
+				mu.Unlock()
+			}
+		}(g)
+	}
+	wg.Wait()
+	if viol != "" {
+		fail(t, w, "%s", viol)
+	}
+	for _, r := range recs {
+		r.ID = len(w.Recs)
+		w.Recs = append(w.Recs, r)
+	}
+	kit.Rec.Label("concurrent-epilogue")
 }
